@@ -407,7 +407,9 @@ where
         frame: LinkFrame,
     ) -> Result<Running, SessionInnerError> {
         match self.session.local_state() {
-            SessionState::Mapped => {}
+            // After the remote End the session may still send (it has not ended its own half yet):
+            // this is how frames queued before the End are flushed ahead of the answering End
+            SessionState::Mapped | SessionState::EndReceived => {}
             _ => return Err(SessionInnerError::IllegalState), // End session with illegal state
         }
 
